@@ -56,7 +56,8 @@ static int fin_count(int x) { int c = 0;
 #if PART == 1
 #define NB 3
 static const int kind[NB] = { B0, B1, B2 };
-static op_t ops[NB];
+static op_t op0, op1, op2;           /* separate objects (not an array: see NOTES, cbmc field-sensitivity issue) */
+static op_t* const ops[NB] = { &op0, &op1, &op2 };
 static u32 elem[NB];
 static int init[4], pushed[NB], got[NB], ok[NB];
 #define ISPUSH(p) (kind[p] == 1 || kind[p] == 3)
@@ -113,11 +114,11 @@ int main(void) {
   /* the batch, linked B0 -> B1 -> B2 (kind 0 = absent; absent entries are at the end) */
   op_t* next = 0;
 #define MK(p) if (kind[p] != 0) { if (kind[p] == 2) elem[p] = 0xdeadbeefu; else { pushed[p] = nd_int(); elem[p] = (u32)pushed[p]; } \
-                                  vp_op_init(&ops[p], &elem[p], kind[p], next); next = &ops[p]; }
+                                  vp_op_init(ops[p], &elem[p], kind[p], next); next = ops[p]; }
   MK(2) MK(1) MK(0)
   vp_q_handle(Q, next);
   int npush = 0, npop = 0;
-#define ST(p) if (kind[p] != 0) { u64 st = vp_op_status(&ops[p]); \
+#define ST(p) if (kind[p] != 0) { u64 st = vp_op_status(ops[p]); \
     VP_ASSERT(st == 1 || st == 2, "operation left without a status (its thread would spin forever)"); \
     if (kind[p] == 2) { ok[p] = (st == 1); got[p] = (int)elem[p]; if (ok[p]) npop++; else VP_ASSERT(elem[p] == 0xdeadbeefu, "failed pop wrote its result"); } \
     else { VP_ASSERT(st == 1, "push reported FAILED although nothing threw"); npush++; } }
